@@ -4,3 +4,7 @@ pub assume_specification<T: Default> [core::mem::take::<T>] (dest: &mut T) -> (r
 //@ASSUME std: core::mem::replace returns the old value and stores the new one
 pub assume_specification<T> [core::mem::replace::<T>] (dest: &mut T, src: T) -> (r: T)
     ensures r == *old(dest), *final(dest) == src;
+//@ASSUME std: Result::and_then calls the closure on the Ok value and passes an Err through unchanged
+pub assume_specification<T, E, U, F: FnOnce(T) -> core::result::Result<U, E>> [core::result::Result::<T, E>::and_then] (r: core::result::Result<T, E>, op: F) -> (res: core::result::Result<U, E>)
+    requires r is Ok ==> op.requires((r->Ok_0,)),
+    ensures match r { Ok(t) => op.ensures((t,), res), Err(e) => res == core::result::Result::<U, E>::Err(e) };
